@@ -32,6 +32,8 @@ structure W where
   chain : List (Option Nat) := []   -- panic cells reachable through panicContext, nearest first
   defers : List Nat := []           -- deferred calls of the running activation, last first
   spawned : List Nat := []          -- ghost log of deferred calls started, reversed
+  env : List (Nat × Nat) := []      -- loop counters (loop ids are unique in a program and a function is never
+                                    -- active twice, so one table serves all activations)
   deriving Repr
 
 /-- findPanickingContext over the cells: clear the first active one -/
@@ -78,9 +80,10 @@ def execS : Nat → Prog → W → Stmt → Sig × W
          | (.normal, w2) => (.ret, w2)
          | r => r)
       | r => r
-    | .loop _ n b => execLoop fuel p w n b
+    | .loop id n b => execLoop fuel p w id 0 n b
     | .brk => (.brk, w)
     | .cont => (.cont, w)
+    | .cond id k b => if envGet w.env id = k then execB fuel p w b else (.normal, w)
 /-- the expression of a `return <expr>` -/
 def evalE : Nat → Prog → W → RExpr → Sig × W
   | 0, _, w, _ => (.nofuel, w)
@@ -94,12 +97,12 @@ def execB : Nat → Prog → W → Block → Sig × W
     match execS fuel p w s with
     | (.normal, w') => execB fuel p w' r
     | x => x
-def execLoop : Nat → Prog → W → Nat → Block → Sig × W
-  | 0, _, w, _, _ => (.nofuel, w)
-  | _ + 1, _, w, 0, _ => (.normal, w)
-  | fuel + 1, p, w, n + 1, b =>
-    match execB fuel p w b with
-    | (.normal, w') | (.cont, w') => execLoop fuel p w' n b
+def execLoop : Nat → Prog → W → Nat → Nat → Nat → Block → Sig × W
+  | 0, _, w, _, _, _, _ => (.nofuel, w)
+  | _ + 1, _, w, _, _, 0, _ => (.normal, w)
+  | fuel + 1, p, w, id, i, n + 1, b =>            -- pass number i (counter value), n + 1 passes to go
+    match execB fuel p { w with env := envSet w.env id i } b with
+    | (.normal, w') | (.cont, w') => execLoop fuel p w' id (i + 1) n b
     | (.brk, w') => (.normal, w')
     | x => x
 /-- invokeDeferredStatements: each deferred call in its own child context, no panic chain -/
